@@ -61,39 +61,59 @@ class Extracted:
         return eval_literal(node, env)
 
     def _dictionary_order(self):
-        """the order in which Dictionary.__init__ fills the dict (later wins)"""
+        """the order in which Dictionary.__init__ fills the dict (later wins); recognised by role, not by local names"""
+        from ..core.ctx import ancestors, conjuncts, enclosing_tests
         f = self.ctx.ix.func("dateparser.languages.dictionary:Dictionary.__init__")
+        # the local that ends up in self._dictionary
+        dname = None
+        for n in iter_own_nodes(f.node):
+            if isinstance(n, ast.Assign) and ast.unparse(n.targets[0]) == "self._dictionary" and isinstance(n.value, ast.Name):
+                dname = n.value.id
+        if dname is None:
+            raise AnalysisError(RULE, "Dictionary.__init__: no `self._dictionary = <local>`")
+        rel_names = {n.targets[0].id for n in iter_own_nodes(f.node) if isinstance(n, ast.Assign) and isinstance(n.targets[0], ast.Name)
+                     and "'relative-type'" in ast.unparse(n.value) and "regex" not in ast.unparse(n.value)}
         order = []
         for n in iter_own_nodes(f.node):
-            if isinstance(n, ast.Call) and ast.unparse(n.func) == "dictionary.update":
-                t = " ".join(ast.unparse(n).split())
-                if "skip" in t and "fillvalue=None" in t:
-                    order.append("skip")
-                elif "pertain" in t and "fillvalue=None" in t:
-                    order.append("pertain")
-                elif "translations" in t and "fillvalue=word" in t:
-                    order.append("known")
-                elif "ALWAYS_KEEP_TOKENS, ALWAYS_KEEP_TOKENS" in t:
-                    order.append("always_keep")
-                elif "PARSER_KNOWN_TOKENS" in t:
-                    order.append("parser_known")
-                elif "relative_translations" in t and "fillvalue=key" in t:
-                    order.append("relative")
-                else:
-                    raise AnalysisError(RULE, "Dictionary.__init__: unrecognised dictionary.update: %s" % t[:80])
+            if not (isinstance(n, ast.Call) and isinstance(n.func, ast.Attribute) and n.func.attr == "update"
+                    and isinstance(n.func.value, ast.Name) and n.func.value.id == dname):
+                continue
+            t = " ".join(ast.unparse(n).split())
+            facts = {ast.unparse(a_) for test, pol in enclosing_tests(f.node, n) for a_, p in conjuncts(test, pol) if p}
+            loops = [ast.unparse(a_.iter) for a_ in ancestors(f.node, n) if isinstance(a_, ast.For)]
+            role = None
+            if any(x.startswith("'skip' in") for x in facts):
+                role = "skip"
+            elif any(x.startswith("'pertain' in") for x in facts):
+                role = "pertain"
+            elif "KNOWN_WORD_TOKENS" in loops:
+                role = "known"
+            elif "ALWAYS_KEEP_TOKENS" in t:
+                role = "always_keep"
+            elif "PARSER_KNOWN_TOKENS" in t:
+                role = "parser_known"
+            elif any(l.endswith(".items()") and l[:-8] in rel_names for l in loops):
+                role = "relative"
+            if role is None:
+                raise AnalysisError(RULE, "Dictionary.__init__: unrecognised update of the dictionary: %s" % t[:80])
+            if role in ("skip", "pertain") and "fillvalue=None" not in t:
+                raise AnalysisError(RULE, "Dictionary.__init__: %s words no longer map to None" % role)
+            order.append(role)
         if sorted(order) != sorted(["skip", "pertain", "known", "always_keep", "parser_known", "relative"]):
             raise AnalysisError(RULE, "Dictionary.__init__ update sequence changed: %s" % order)
         t = " ".join(ast.unparse(f.node).split())
-        for frag in ("for word in KNOWN_WORD_TOKENS:", "map(methodcaller('lower'), locale_info[word])",
-                     "map(methodcaller('lower'), value)", "map(methodcaller('lower'), locale_info['skip'])"):
-            if frag not in t:
-                raise AnalysisError(RULE, "Dictionary.__init__ shape changed (missing %r)" % frag)
+        import re as _re
+        if not _re.search(r"for (\w+) in KNOWN_WORD_TOKENS: if \1 in locale_info: (\w+) = map\(methodcaller\('lower'\), locale_info\[\1\]\) %s\.update\(zip_longest\(\2, \[\], fillvalue=\1\)\)" % dname, t):
+            raise AnalysisError(RULE, "Dictionary.__init__: known-word loop changed shape")
+        if not _re.search(r"for (\w+), (\w+) in (\w+)\.items\(\): (\w+) = map\(methodcaller\('lower'\), \2\) %s\.update\(zip_longest\(\4, \[\], fillvalue=\1\)\)" % dname, t):
+            raise AnalysisError(RULE, "Dictionary.__init__: relative-type loop changed shape")
         return order
 
     def _check_normalize_model(self):
         f = self.ctx.ix.func("dateparser.utils:normalize_unicode")
         t = " ".join(ast.unparse(f.node).split())
-        if "unicodedata.normalize(form, string)" not in t or "unicodedata.category(c) != 'Mn'" not in t \
+        import re as _re
+        if "unicodedata.normalize(form, string)" not in t or not _re.search(r"unicodedata\.category\((\w+)\) != 'Mn'", t) \
                 or [ast.unparse(d) for d in f.node.args.defaults] != ["'NFKD'"]:
             raise AnalysisError(RULE, "normalize_unicode no longer is NFKD minus Mn")
 
@@ -134,13 +154,16 @@ def _normalize(self):
         if len(tmpl) != 1 or len(flags) != 1:
             raise AnalysisError(RULE, "_get_simplifications: wrapper template / flags not unique: %s %s" % (tmpl, flags))
         t = " ".join(ast.unparse(f.node).split())
-        if "no_word_spacing = eval(self.info.get('no_word_spacing', 'False'))" not in t or "if not no_word_spacing:" not in t:
+        import re as _re
+        m_ = _re.search(r"(\w+) = eval\(self\.info\.get\('no_word_spacing', 'False'\)\)", t)
+        if not m_ or ("if not %s:" % m_.group(1)) not in t:
             raise AnalysisError(RULE, "_get_simplifications: no_word_spacing switch changed")
         g = self.ctx.ix.func("dateparser.languages.locale:Locale._generate_simplifications")
         t = " ".join(ast.unparse(g.node).split())
-        for frag in ("key = normalize_unicode(key)", "c_simplification[key] = str(value)",
-                     "normalize_unicode(value) if normalize else value", "self.info.get('simplifications', [])"):
-            if frag not in t:
+        import re as _re
+        for frag in (r"(\w+) = normalize_unicode\(\1\)", r"(\w+)\[(\w+)\] = str\((\w+)\)",
+                     r"normalize_unicode\((\w+)\) if normalize else \1", r"self\.info\.get\('simplifications', \[\]\)"):
+            if not _re.search(frag, t):
                 raise AnalysisError(RULE, "_generate_simplifications shape changed (missing %r)" % frag)
         return tmpl.pop(), _flags(flags.pop())
 
@@ -183,21 +206,25 @@ def _normalize(self):
     def _check_translate_numerals(self):
         f = self.ctx.ix.func("dateparser.languages.locale:Locale._translate_numerals")
         t = " ".join(ast.unparse(f.node).split())
-        for frag in ("NUMERAL_PATTERN.split(date_string)", "if token.isdecimal():", "str(int(token)).zfill(len(token))", "''.join(date_string_tokens)"):
-            if frag not in t:
+        import re as _re
+        for frag in (r"NUMERAL_PATTERN\.split\(date_string\)", r"if (\w+)\.isdecimal\(\):", r"str\(int\((\w+)\)\)\.zfill\(len\(\1\)\)", r"''\.join\((\w+)\)"):
+            if not _re.search(frag, t):
                 raise AnalysisError(RULE, "_translate_numerals shape changed (missing %r)" % frag)
 
     def _check_simplify(self):
         f = self.ctx.ix.func("dateparser.languages.locale:Locale._simplify")
         t = " ".join(ast.unparse(f.node).split())
-        for frag in ("date_string = date_string.lower()", "date_string = pattern.sub(replacement, date_string).lower()"):
-            if frag not in t:
+        import re as _re
+        for frag in (r"date_string = date_string\.lower\(\)", r"date_string = (\w+)\.sub\((\w+), date_string\)\.lower\(\)"):
+            if not _re.search(frag, t):
                 raise AnalysisError(RULE, "_simplify shape changed (missing %r)" % frag)
         for key in ("dateparser.languages.locale:Locale.translate", "dateparser.languages.locale:Locale.is_applicable"):
             g = self.ctx.ix.func(key)
             tt = " ".join(ast.unparse(g.node).split())
+            import re as _re
+            ms = _re.search(r"(\w+)\.split\(date_string", tt)
             i1, i2, i3, i4 = (tt.find(x) for x in ("self._translate_numerals(date_string)", "normalize_unicode(date_string)",
-                                                   "self._simplify(date_string", "dictionary.split(date_string"))
+                                                   "self._simplify(date_string", ms.group(0) if ms else "\0"))
             if -1 in (i1, i2, i3, i4) or not (i1 < i2 < i3 < i4) or "if settings.NORMALIZE: date_string = normalize_unicode(date_string)" not in tt:
                 raise AnalysisError(RULE, "%s: numerals -> normalize -> simplify -> split order changed" % key)
 
